@@ -1,2 +1,3 @@
 import CapyV.Props.C25
 import CapyV.Props.C27
+import CapyV.Props.C03
